@@ -138,6 +138,14 @@ func (x *exec) verify(res *FuncResult) {
 	}
 	x.run(fr, st)
 	x.checkBackEdges(fr)
+	// vacuity guard: a `comparator` clause that no sort call picked up would silently prove nothing
+	for k, cc := range con.Closures {
+		for _, cl := range cc.Comparator {
+			if !x.cmpSeen[cl] {
+				x.oblig(fr, entry.clone(), fmt.Sprintf("closure%d.comparator", k), cl.Label+":not-reached", fn.Pos(), "false", cl.Props)
+			}
+		}
+	}
 	if len(fr.rets) > 0 {
 		sr := x.merge(fr.rets, "exit")
 		var conds []string
